@@ -10,7 +10,7 @@ DIRECT = {
     'C06': {'read-vs-spec', 'scan-vs-spec', 'view-changed-by-step', 'api-error', 'harness-crash'},
     'C07': {'iter-vs-spec', 'scan-vs-spec', 'view-changed-by-step', 'api-error', 'harness-crash', 'table-status'},
     'C13': {'dir-vs-live', 'iter-vs-spec', 'table-status', 'api-error', 'harness-crash'},
-    'C14': {'inv-false-on-observed', 'layout-mismatch', 'meta-mismatch', 'api-error', 'harness-crash', 'table-status'},
+    'C14': {'inv-false-on-observed', 'layout-mismatch', 'meta-mismatch', 'api-error', 'harness-crash', 'table-status', 'table-bytes-vs-independent-reader'},
 }
 DIRECT['C19'] = {'read-vs-spec', 'read-vs-spec-after-repair', 'scan-vs-spec', 'iter-vs-spec', 'api-error', 'harness-crash', 'table-status', 'dir-vs-live', 'layout-mismatch'}
 DIRECT['C20'] = {'backup-contents', 'backup-not-independent', 'copy-contents', 'wrongcmp-not-refused', 'wrongcmp-modified-files',
@@ -50,6 +50,7 @@ def one_history(args):
         cfg, ops = profile; keys = []
     else:
         cfg, ops, keys = histgen.gen_history(rng, profile, nops, cfg=histgen.gen_config(rng, fixed))
+    if profile == 'c14': cfg['tablehex'] = 3000
     dbdir = os.path.join(base, 'db%d' % idx)
     t0 = time.time()
     rc, out, err = k2lib.run_c(k2, dbdir, cfg, ops)
